@@ -64,8 +64,8 @@ def main():
     jobs = [j for j in jobs if not only or any(o in j[0] for o in only)]
     njobs = int(sys.argv[sys.argv.index("--jobs") + 1]) if "--jobs" in sys.argv else 1
     import concurrent.futures as cf
-    with cf.ThreadPoolExecutor(max_workers=njobs) as pool:
-        results = list(pool.map(lambda j: run_one(j[0], j[1], j[2]), jobs))
+    pool = cf.ThreadPoolExecutor(max_workers=njobs)
+    results = pool.map(lambda j: run_one(j[0], j[1], j[2]), jobs)   # yields in order, as they complete
     for (name, patch, props, expect), res in zip(jobs, results):
         if "error" in res:
             print(f"{name}: ERROR {res['error']}", flush=True)
